@@ -721,7 +721,7 @@ Qed.
 
 Lemma step_descs_in : forall root ps used p u d,
   In d (step_descs root ps used p u) ->
-  d_step d = pr_step p /\
+  d_step d = pr_step p /\ d_used d = u /\ d_refs d = pr_refs p /\
   d_ws d = own_ws root ps (s_name (pr_step p)) u (d_row d) /\
   d_name d = iname ps (s_name (pr_step p)) u (d_row d) /\
   d_caps d = pr_caps p /\
@@ -793,6 +793,23 @@ Proof.
   destruct (used_of used n) as [|k u]; simpl; auto; try (destruct row; reflexivity).
 Qed.
 
+(** rows that carry the same labels for the parent's used parameters denote the
+    same combination of the parent; in particular the same row does *)
+Lemma same_combo_same_row : forall ps d d', d_row d' = d_row d -> same_combo ps d d' = true.
+Proof.
+  intros ps d d' E. unfold same_combo. rewrite E. destruct (d_row d); auto. apply str_eqb_refl.
+Qed.
+
+Lemma same_combo_labels : forall ps d d' i i',
+  d_row d = Some i -> d_row d' = Some i' ->
+  (forall k p, In k (d_used d') -> find_param k ps = Some p -> row_label p i = row_label p i') ->
+  same_combo ps d d' = true.
+Proof.
+  intros ps d d' i i' E E' H. unfold same_combo. rewrite E, E'. apply str_eqb_eq.
+  unfold combo_string. f_equal. apply map_ext_in. intros k Hk.
+  destruct (find_param k ps) as [p|] eqn:Ef; [apply (H k p Hk Ef)|reflexivity].
+Qed.
+
 Section Plan.
   Variables (root : str) (ps : list param) (used0 : list (str * list str)) (seen0 : list str).
   Variables (L : list pre) (ds : list desc).
@@ -805,7 +822,7 @@ Section Plan.
   Proof.
     intros d n Hd Hs Hh Hk.
     destruct (plan_go_in _ _ _ _ _ _ _ Hplan Hd) as [l1 [p [l2 [E Hin]]]].
-    apply step_descs_in in Hin. destruct Hin as [Est [_ [_ [_ [Edirs _]]]]].
+    apply step_descs_in in Hin. destruct Hin as [Est [_ [_ [_ [_ [_ [Edirs _]]]]]]].
     rewrite Edirs in *. rewrite map_map in Hk. simpl in Hk. rewrite map_id in Hk.
     rewrite dir_of_map; auto. apply wsdir_funnel; auto. rewrite <- Est. exact Hh.
   Qed.
@@ -815,15 +832,15 @@ Section Plan.
     ~ In (s_name (d_step d')) (map fst used0) ->
     ~ In (s_name (d_step d')) (hub_of (d_step d)) ->
     In (s_name (d_step d')) (map fst (d_dirs d)) ->
-    (d_row d' = d_row d \/ d_row d' = None) ->
+    same_combo ps d d' = true ->
     s_name (d_step d') <> SOURCE ->
     dir_of (s_name (d_step d')) (d_dirs d) = d_ws d'.
   Proof.
     intros d d' Hd Hd' Hn0 Hh Hk Hrow Hs.
     destruct (plan_go_in _ _ _ _ _ _ _ Hplan Hd) as [l1 [p [l2 [E Hin]]]].
     destruct (plan_go_in _ _ _ _ _ _ _ Hplan Hd') as [l1' [p' [l2' [E' Hin']]]].
-    apply step_descs_in in Hin. destruct Hin as [Est [_ [_ [_ [Edirs _]]]]].
-    apply step_descs_in in Hin'. destruct Hin' as [Est' [Ews' [_ [_ [_ [Hu0 Hu1]]]]]].
+    apply step_descs_in in Hin. destruct Hin as [Est [_ [_ [_ [_ [_ [Edirs _]]]]]]].
+    apply step_descs_in in Hin'. destruct Hin' as [Est' [Eu' [_ [Ews' [_ [_ [_ [Hu0 Hu1]]]]]]]].
     set (n := s_name (d_step d')) in *.
     rewrite Edirs in Hk. rewrite map_map in Hk. simpl in Hk. rewrite map_id in Hk.
     rewrite Edirs, dir_of_map; auto.
@@ -850,10 +867,12 @@ Section Plan.
       fold (pre_names l1'). rewrite Eq. exact Hin. }
     rewrite wsdir_ordinary; auto; [|rewrite <- Est; exact Hh].
     rewrite Hu. rewrite Ews'. rewrite <- Est'. fold n.
+    unfold same_combo in Hrow. rewrite Eu' in Hrow.
     destruct (step_used ps (used_go ps used0 l1') p') as [|k u] eqn:Eu.
     - rewrite Hu0; auto.
-    - destruct Hu1 as [i [Ei _]]; [discriminate|]. rewrite Ei in *.
-      destruct Hrow as [Hrow|Hrow]; [|discriminate]. rewrite <- Hrow. reflexivity.
+    - destruct Hu1 as [i' [Ei' _]]; [discriminate|]. rewrite Ei' in *.
+      destruct (d_row d) as [i|]; [|discriminate].
+      apply str_eqb_eq in Hrow. simpl. rewrite Hrow. reflexivity.
   Qed.
 End Plan.
 
@@ -905,7 +924,7 @@ Theorem plan_ws_ordinary : forall m c ds d d',
   valid_case c = true -> plan m c = Some ds -> In d ds -> In d' ds ->
   ~ In (s_name (d_step d')) (hub_of (d_step d)) ->
   In (s_name (d_step d')) (map fst (d_dirs d)) ->
-  (d_row d' = d_row d \/ d_row d' = None) ->
+  same_combo (c_params c) d d' = true ->
   dir_of (s_name (d_step d')) (d_dirs d) = d_ws d'.
 Proof.
   intros m c ds d d' Hv Hp Hd Hd' Hh Hk Hrow. unfold plan in Hp.
@@ -922,13 +941,13 @@ Qed.
 (** the own workspace of every planned instance: root/step or root/step/combination *)
 Theorem plan_own_ws : forall m c ds d,
   plan m c = Some ds -> In d ds ->
-  exists u, d_ws d = own_ws (c_root c) (c_params c) (s_name (d_step d)) u (d_row d) /\
-            d_name d = iname (c_params c) (s_name (d_step d)) u (d_row d).
+  d_ws d = own_ws (c_root c) (c_params c) (s_name (d_step d)) (d_used d) (d_row d) /\
+  d_name d = iname (c_params c) (s_name (d_step d)) (d_used d) (d_row d).
 Proof.
   intros m c ds d Hp Hd. unfold plan in Hp.
   destruct (plan_go_in _ _ _ _ _ _ _ Hp Hd) as [l1 [p [l2 [E Hin]]]].
-  apply step_descs_in in Hin. destruct Hin as [Est [Ews [En _]]].
-  eexists. rewrite Est. split; eauto.
+  apply step_descs_in in Hin. destruct Hin as [Est [Eu [_ [Ews [En _]]]]].
+  rewrite Est, Eu. split; auto.
 Qed.
 
 (* ------------------------------------------------------------------------ *)
@@ -1089,3 +1108,61 @@ Proof. intros E [|c x]; reflexivity. Qed.
 
 Theorem C09_main : forall c : case, valid_case c = true -> hyg c = true -> C09_ok c (stage Model c) = true.
 Proof. intros c _. exact (C09_ok_model c). Qed.
+
+(* ------------------------------------------------------------------------ *)
+(** * The environment tables: what [StudyEnvironment.add] defines *)
+Lemma env_add_adds : forall E it, In (item_entry it) (env_entries (env_add E it)).
+Proof.
+  intros E [n v b|n v]; unfold env_entries, env_add;
+    try destruct (b && e_tokens E && existsb (N.eqb DOLLAR) v); simpl;
+    repeat rewrite in_app_iff; simpl; tauto.
+Qed.
+
+Lemma env_add_keeps : forall E it e, In e (env_entries E) -> In e (env_entries (env_add E it)).
+Proof.
+  intros E it e H. unfold env_entries in *.
+  apply in_app_or in H. destruct H as [H|H]; [|apply in_app_or in H; destruct H as [H|H]];
+    destruct it as [n v b|n v]; unfold env_add;
+    try destruct (b && e_tokens E && existsb (N.eqb DOLLAR) v); simpl;
+    repeat rewrite in_app_iff; simpl; tauto.
+Qed.
+
+Lemma table_remove_keeps : forall t T e, fst e <> t -> In e T -> In e (table_remove t T).
+Proof.
+  intros t T e Hne Hin. unfold table_remove. apply filter_In. split; auto.
+  apply negb_true_iff. apply str_eqb_neq. congruence.
+Qed.
+
+Lemma env_remove_keeps : forall E n e,
+  fst e <> tok n -> In e (env_entries E) -> In e (env_entries (env_remove E n)).
+Proof.
+  intros E n e Hne H. unfold env_entries in *. unfold env_remove.
+  destruct (table_has (tok n) (e_deps E)); [|destruct (table_has (tok n) (e_subs E))]; simpl;
+    repeat rewrite in_app_iff in *;
+    destruct H as [H|[H|H]]; auto using table_remove_keeps.
+Qed.
+
+Definition env_step (E : envt) (op : env_op) : envt :=
+  match op with EAdd it => env_add E it | ERemove n => env_remove E n end.
+
+Lemma env_fold_keeps : forall ops E e,
+  (forall n, In (ERemove n) ops -> fst e <> tok n) ->
+  In e (env_entries E) -> In e (env_entries (fold_left env_step ops E)).
+Proof.
+  induction ops as [|op ops IH]; intros E e Hrm H; simpl; auto.
+  apply IH; [intros n Hn; apply Hrm; right; exact Hn|].
+  destruct op as [it|n]; simpl.
+  - apply env_add_keeps. exact H.
+  - apply env_remove_keeps; auto. apply Hrm. left. reflexivity.
+Qed.
+
+(** every variable / label / dependency added to the environment (and not
+    removed afterwards) is an entry token |-> value of one of its three tables *)
+Theorem env_build_defines : forall ops1 it ops2,
+  (forall n, In (ERemove n) ops2 -> fst (item_entry it) <> tok n) ->
+  In (item_entry it) (env_entries (env_build (ops1 ++ EAdd it :: ops2))).
+Proof.
+  intros ops1 it ops2 Hrm. unfold env_build.
+  change (fun E op => match op with EAdd it0 => env_add E it0 | ERemove n => env_remove E n end) with env_step.
+  rewrite fold_left_app. simpl. apply env_fold_keeps; auto. apply env_add_adds.
+Qed.
